@@ -79,6 +79,7 @@ class Ctx:
         self.seed = seed
         self.rng = random.Random(seed * 1000003 + sum(map(ord, prop)))
         self.t0 = time.time()
+        self.cpu0 = sum(os.times()[:4])
         self.driver = None
         self.evaluations = 0
         self.distinct = set()         # keys of distinct non-trivial cases
@@ -114,6 +115,12 @@ class Ctx:
         self.failures.append({"what": what, "replay": replay})
 
     def elapsed(self):
+        """Budget clock: CPU seconds of this process and its finished children, but at least half the wall-clock
+        time — so that a loaded machine explores (nearly) as many cases as an idle one, while a check that mostly
+        waits still ends in bounded wall-clock time."""
+        return max(sum(os.times()[:4]) - self.cpu0, (time.time() - self.t0) / 2.0)
+
+    def wall(self):
         return time.time() - self.t0
 
     def big(self):
